@@ -12,10 +12,15 @@ LEVEL_TEXT = ("Coq theorems in an abstract ordered *-field (Gaussian rationals, 
               "the field - and, for data in the Gaussian rationals or in C, every complex root (instance at Coquelicot's C) - has modulus < 1, the least-squares normal equations on corrmtx('autocorrelation') are the same equations with a "
               "unique solution attaining the minimum N*P, and lpc (real data) returns the same a with error P*N/(N-1). "
               "Tie: exact in-Coq correspondence of aryule / pyule.ar / lpc with the Gallina model on dyadic inputs (all norms the code "
-              "accepts and rejects, both allow_singularity values, order >= N), and a property-directed search on the implementation.")
+              "accepts and rejects, both allow_singularity values, order >= N), and a property-directed search on the implementation. "
+              "Loop-IR tie (T6): the IR programs of aryule (yulewalker.py) and ma (arma.py) are regenerated from the source on every run WITH "
+              "their callees CORRELATION, LEVINSON, aryule (other modules, imports resolved syntactically) embedded, and compared exactly (zero "
+              "tolerance, QcC) with Model.Yule.aryule / Model.MaEst.ma_est; for aryule `run program = Model.Yule.aryule` is moreover a theorem "
+              "(composition of the CORRELATION and LEVINSON theorems through the call semantics: every input with the complex dtype; the "
+              "float dtype for real data with allow_singularity=False), claimed while the regenerated text is the proved one.")
 TRUSTED = [TRUSTED_LINE, "Coq 8.16.1 kernel + vm_compute (no native_compute)",
            "aryule_stable_complex / aryule_stable_C only: the three standard-library axioms of the real numbers (sig_forall_dec, sig_not_dec, functional_extensionality_dep) via Coquelicot's C; every other theorem is axiom-free",
-           "hand-written models coq/Model/Yule.v, Corr.v, Levinson.v, tied to yulewalker.py/correlation.py/levinson.py/lpc.py by the correspondence run only",
+           "hand-written models coq/Model/Yule.v, Corr.v, Levinson.v: aryule, CORRELATION, LEVINSON (and ma of Model/MaEst.v) are tied to yulewalker.py/correlation.py/levinson.py/arma.py by the loop-IR tie (exact; theorems for LEVINSON, CORRELATION and - by composition - aryule); lpc and the pyule attributes by the correspondence run only",
            "numpy.fft inside lpc is modelled by its exact-arithmetic specification (lag sums; transform length >= 2N-1), not verified",
            "pyule: only the stored .ar/.reflection are modelled (the PSD goes through arma2psd: C15/C01 machinery)",
            "Python harness (snapshot, generators, float->dyadic conversion, numpy.linalg oracles of the search)"]
@@ -243,7 +248,9 @@ def run(ctx):
     from spectrum import aryule, lpc, pyule
     rng = ctx.rng
     ctx.check_theorems('Properties/C12.v')
-    loopir_tie(ctx, ['LEVINSON', 'CORRELATION'])      # IR programs regenerated from the source vs the hand models: exact, zero tolerance
+    # IR programs regenerated from the source vs the hand models: exact, zero tolerance.  aryule and ma are translated WITH their callees
+    # (CORRELATION, LEVINSON, aryule: other modules of the package, resolved through the imports) and compared with Model.Yule.aryule / Model.MaEst.ma_est
+    loopir_tie(ctx, ['LEVINSON', 'CORRELATION', 'aryule', 'ma'])
     # ---------------- correspondence: aryule (+ pyule attributes)
     cases = []; meta = []
     n = ctx.q(220, 2500); tries = 0
